@@ -169,7 +169,7 @@ package components
 
 //@ func (*IPSelectorSync).syncRead(p) (ipSetChan)
 //@   props C19
-//@   requires wf: wfInPorts(p.inPorts)
+//@   requires wf: wfInPorts(p.inPorts) && (forall k string :: k in p.inPorts ==> selTupleKey(k))
 //@   trusted-frame starts the reading go-routine (syncRead$1, verified below), which only receives on the in-ports and sends on the channel made here
 //@   modifies chan, fresh
 //@   ensures nonnil: ipSetChan != nil
@@ -179,12 +179,14 @@ package components
 //@   requires wf: wfInPorts(p.inPorts) && ipSetChan != nil && (forall k string :: k in p.inPorts ==> selTupleKey(k))
 //@   modifies *
 //@   atsend passes-on-only-complete-aligned-tuples[C19]: ok && $ch == ipSetChan
-//@   loop 0 invariant stable: p == old(p) && ipSetChan == old(ipSetChan) && ipSetChan != nil && p.inPorts == old(p.inPorts) && wfInPorts(p.inPorts) && (forall k string :: k in p.inPorts ==> selTupleKey(k)) && (ok ==> ips != nil && (forall k string :: k in ips ==> validIP(ips[k]) && k in p.inPorts))
+//@   loop 0 invariant stable: p == old(p) && ipSetChan == old(ipSetChan) && ipSetChan != nil && p.inPorts == old(p.inPorts) && wfInPorts(p.inPorts)
+//@   loop 0 invariant keys: forall k string :: k in p.inPorts ==> selTupleKey(k)
+//@   loop 0 invariant tuple: ok ==> ips != nil && (forall k string :: k in ips ==> validIP(ips[k]) && k in p.inPorts)
 
 //@ define selOutsOK(p *IPSelectorSync) bool = p.outPorts != nil && (forall k string :: selTupleKey(k) ==> k in p.outPorts) && (forall o string :: o in p.outPorts ==> p.outPorts[o] != nil && wfOutPort(p.outPorts[o]))
 //@ func (*IPSelectorSync).Run(p)
 //@   props C19
-//@   requires wf: wfInPorts(p.inPorts) && selOutsOK(p)
+//@   requires wf: wfInPorts(p.inPorts) && selOutsOK(p) && (forall k string :: k in p.inPorts ==> selTupleKey(k))
 //@   modifies *
 //@   atcall (*OutPort).Send forwards-only-tuples-whose-members-all-pass[C19]: forall k string :: k in ips ==> selIncludes(ips[k])
 //@   atcall (*OutPort).Send member-goes-to-the-out-port-named-like-its-in-port[C19]: $arg1 == ips[iname] && $arg0 == p.outPorts[iname]
